@@ -1,12 +1,15 @@
 // C12: both formatters change only white space and are idempotent.
 //
 // (A) lib/dumbindent: every text of length <= L over a 17-symbol alphabet that
-//     an independent lexer deems lexically closed, x {2 spaces, 3 spaces, tabs};
-//     plus every C file in the repository under whole-file and per-line
-//     indentation perturbations.
+//
+//	an independent lexer deems lexically closed, x {2 spaces, 3 spaces, tabs};
+//	plus every C file in the repository under whole-file and per-line
+//	indentation perturbations.
+//
 // (B) lang/render (wuffsfmt): every .wuffs file in the repository and every
-//     layout mutation of it (newline/blank-line/comment/semicolon insertion,
-//     numeric literal respelling) that the formatter accepts.
+//
+//	layout mutation of it (newline/blank-line/comment/semicolon insertion,
+//	numeric literal respelling) that the formatter accepts.
 package main
 
 import (
@@ -410,7 +413,7 @@ func listFiles(root string, exts ...string) []string {
 }
 
 func indenterFiles(r *ev.Run) (evals, nontrivial int64) {
-	files := listFiles("/repo", ".c", ".h", ".cc")
+	files := listFiles(ev.Repo(), ".c", ".h", ".cc")
 	var nEval, nNon atomic.Int64
 	watch := NewWatchFor(r, ev.Workers())
 	type job struct {
@@ -691,7 +694,7 @@ func wuffsFormatter(r *ev.Run) (evals, accepted, nontrivial int64) {
 		stride = 1
 	}
 	r.Add("formatter_line_stride_for_large_files", int64(stride))
-	files := listFiles("/repo", ".wuffs")
+	files := listFiles(ev.Repo(), ".wuffs")
 	var nEval, nAcc, nNon atomic.Int64
 	type job struct {
 		seed string
@@ -703,7 +706,7 @@ func wuffsFormatter(r *ev.Run) (evals, accepted, nontrivial int64) {
 		if err != nil {
 			continue
 		}
-		jobs = append(jobs, job{strings.TrimPrefix(f, "/repo/"), b})
+		jobs = append(jobs, job{strings.TrimPrefix(f, ev.Repo()+"/"), b})
 	}
 	r.Add("wuffs_seed_files", int64(len(jobs)))
 	// Per-file mutation list is generated lazily; shard by (file, mutation index block).
@@ -927,7 +930,11 @@ func replay(path string) {
 		fmt.Printf("replaying indenter witness clause=%s opts=%s input=%q\n", w.Clause, w.Opts, w.Input)
 		if w.Clause == "terminates" {
 			fmt.Println("(this input makes FormatBytes loop; running it with a 5 s alarm)")
-			go func() { time.Sleep(5 * time.Second); fmt.Println("still running after 5 s: hang reproduced"); os.Exit(1) }()
+			go func() {
+				time.Sleep(5 * time.Second)
+				fmt.Println("still running after 5 s: hang reproduced")
+				os.Exit(1)
+			}()
 		}
 		for _, o := range optList {
 			if o.name == w.Opts || w.Opts == "any" {
